@@ -96,6 +96,7 @@ type Exec struct {
 	loopHavoc bool
 	constGlobals map[string]Val
 	tagFacts    []*Term
+	callsAt     *State // state in which the `calls` designators of the function under verification are compared with a callee's
 	globFacts   []globFact // facts about constant globals of dependencies, added to the queries that mention them
 	sealedImpls map[string][]int
 	pureSeen  map[string]bool
